@@ -88,18 +88,43 @@ St_3_2 == {StS(3, 3, 2)}
 St_1s2_0 == {StS(1, 2, 0)}
 St_2s1_0 == {StS(2, 1, 0)}
 St_xfr   == {StS(1, 1, 0), StS(1, 2, 0)}
-\* every setting at and beyond the ends of its range, set twice, not at all,
-\* by every route
-St_bounds ==
+\* Every setting at, just inside and just outside the ends of its range, set
+\* twice, in either order, not at all, by every route.  The lower ends, the
+\* defaults and values inside are told apart on a clock of 10 s ticks, the
+\* upper ends on longer ticks (the case carries TickMs to the harness).  A
+\* response timeout that is a whole number of ticks is avoided: at `elapsed =
+\* timeout` exactly the run loop sleeps for zero time until the clock moves,
+\* which a frozen clock never does.
+Half == TickMs \div 2
+St_low ==
        {StScript(r, <<>>) : r \in {"new", "default", "conn_new"}}
   \cup {StScript("new", <<Call("set_idle_timeout", 0), Call("set_response_timeout", v)>>) :
-          v \in {0, 1, 599999, 600000, 600001, 3600000}}
-  \cup {StScript("default", <<Call("set_response_timeout", TickMs \div 2), Call("set_idle_timeout", v)>>) :
-          v \in {0, 1, TickMs, TickMs + 1, 3600000, 3600001}}
-  \cup {StScript("new", <<Call("set_streaming_response_timeout", 25000), Call("set_response_timeout", 700000),
-                          Call("set_response_timeout", 5000), Call("set_idle_timeout", 0)>>),
-        StScript("new", <<Call("set_response_timeout", 5000), Call("set_idle_timeout", 0),
-                          Call("set_streaming_response_timeout", 600001)>>)}
+          v \in {0, 1, Half, TickMs + Half, 2 * TickMs + Half}}
+  \cup {StScript("new", <<Call("set_idle_timeout", 0), Call("set_response_timeout", TickMs + Half),
+                          Call("set_streaming_response_timeout", v)>>) :
+          v \in {0, 1, 2 * TickMs + Half}}
+  \cup {StScript("default", <<Call("set_response_timeout", Half), Call("set_idle_timeout", v)>>) :
+          v \in {0, 1, TickMs, TickMs + 1, 2 * TickMs}}
+  \cup {StScript("new", <<Call("set_streaming_response_timeout", 2 * TickMs + Half),
+                          Call("set_response_timeout", 700000),
+                          Call("set_response_timeout", Half), Call("set_idle_timeout", 0)>>),
+        StScript("default", <<Call("set_idle_timeout", 3600001), Call("set_idle_timeout", TickMs),
+                              Call("set_streaming_response_timeout", Half)>>)}
+\* TickMs = 70000
+St_high ==
+       {StScript("new", <<Call("set_idle_timeout", 0), Call("set_response_timeout", v)>>) :
+          v \in {599999, 600000, 600001, 3600000}}
+  \cup {StScript("default", <<Call("set_idle_timeout", 0), Call("set_response_timeout", Half),
+                              Call("set_streaming_response_timeout", v)>>) :
+          v \in {600000, 600001, 3600000}}
+  \cup {StScript("new", <<Call("set_idle_timeout", 0), Call("set_response_timeout", Half),
+                          Call("set_response_timeout", 3600000)>>)}
+\* TickMs = 600000: `elapsed >= idle_timeout` is decided exactly at the end of the range
+St_idlehigh ==
+       {StScript("new", <<Call("set_response_timeout", Half), Call("set_idle_timeout", v)>>) :
+          v \in {3599999, 3600000, 3600001, 7200000}}
+  \cup {StScript("default", <<Call("set_idle_timeout", 7200000), Call("set_response_timeout", Half),
+                              Call("set_idle_timeout", TickMs + 1)>>)}
 
 (* D_stream_response_timeout_ignored: Config::set_response_timeout stores   *)
 (* the value in `response_timeout` (and `streaming_response_timeout`), but  *)
